@@ -1,6 +1,117 @@
-(* C12: lemmas about the quarter-turn model (Rotate90.v). *)
+(* C12: basic lemmas about the quarter-turn model (Rotate90.v): list updates, the turn
+   selected by k mod 4, dependence on k only through k mod 4, refusal of unmapped fields. *)
 From DF Require Import Prelude FieldK NDArray Region Mesh Rotate90.
 Open Scope Q_scope.
 
+(* ---------- set_nth / swap_nth ---------- *)
+Lemma set_nth_length {A} i (x : A) l : length (set_nth i x l) = length l.
+Proof. revert i; induction l as [|h t IH]; intros [|i]; simpl; auto. Qed.
+
+Lemma nth_set_nth_eq {A} i (x : A) l d : (i < length l)%nat -> nth i (set_nth i x l) d = x.
+Proof. revert i; induction l as [|h t IH]; intros [|i] H; simpl in *; try lia; auto. apply IH; lia. Qed.
+
+Lemma nth_set_nth_neq {A} i j (x : A) l d : i <> j -> nth j (set_nth i x l) d = nth j l d.
+Proof.
+  revert i j; induction l as [|h t IH]; intros [|i] [|j] H; simpl in *; try congruence; auto.
+Qed.
+
+Lemma swap_nth_length {A} (d : A) i j l : length (swap_nth d i j l) = length l.
+Proof. unfold swap_nth. rewrite !set_nth_length. reflexivity. Qed.
+
+Lemma nth_swap_nth_l {A} (d : A) i j l : (i < length l)%nat -> (j < length l)%nat -> i <> j ->
+  nth i (swap_nth d i j l) d = nth j l d.
+Proof.
+  intros Hi Hj Hn. unfold swap_nth. rewrite nth_set_nth_neq by congruence.
+  apply nth_set_nth_eq; assumption.
+Qed.
+
+Lemma nth_swap_nth_r {A} (d : A) i j l : (i < length l)%nat -> (j < length l)%nat ->
+  nth j (swap_nth d i j l) d = nth i l d.
+Proof.
+  intros Hi Hj. unfold swap_nth. apply nth_set_nth_eq. rewrite set_nth_length; assumption.
+Qed.
+
+Lemma nth_swap_nth_other {A} (d : A) i j l a : a <> i -> a <> j ->
+  nth a (swap_nth d i j l) d = nth a l d.
+Proof. intros H1 H2. unfold swap_nth. rewrite !nth_set_nth_neq by congruence. reflexivity. Qed.
+
+(* ---------- the turn ---------- *)
+Lemma mod4_cases k : (k mod 4 = 0 \/ k mod 4 = 1 \/ k mod 4 = 2 \/ k mod 4 = 3)%Z.
+Proof. pose proof (Z.mod_pos_bound k 4). lia. Qed.
+
 Lemma zturn_mod4 k : zturn (k mod 4) = zturn k.
 Proof. unfold zturn. rewrite Z.mod_mod by lia. reflexivity. Qed.
+
+Lemma odd_mod4 k : Z.odd (k mod 4) = Z.odd k.
+Proof.
+  rewrite (Z.div_mod k 4) at 2 by lia.
+  rewrite Z.add_comm, Z.odd_add_mul_even; [reflexivity|]. exists 2%Z; reflexivity.
+Qed.
+
+Lemma qturn_mod4 k : qturn (k mod 4) = qturn k.
+Proof. unfold qturn. rewrite zturn_mod4. reflexivity. Qed.
+
+Lemma kturn_mod4 K k : kturn K (k mod 4) = kturn K k.
+Proof. unfold kturn. rewrite zturn_mod4. reflexivity. Qed.
+
+Lemma rot90_mod4 {V} sh a b k (f : idx -> V) : rot90 sh a b (k mod 4) f = rot90 sh a b k f.
+Proof. unfold rot90. rewrite Z.mod_mod by lia. reflexivity. Qed.
+
+(* every level depends on k only through k mod 4 *)
+Lemma region_rotate90_mod4 ip r a b k ref :
+  region_rotate90 ip r a b (k mod 4) ref = region_rotate90 ip r a b k ref.
+Proof. unfold region_rotate90, rot_units. rewrite qturn_mod4, odd_mod4. reflexivity. Qed.
+
+Lemma mapM_ext {A B} (f g : A -> res B) l : (forall x, f x = g x) -> mapM f l = mapM g l.
+Proof. intros H; induction l as [|x t IH]; simpl; [reflexivity|]. rewrite H, IH. reflexivity. Qed.
+
+Lemma mesh_rotate90_mod4 ip m a b k ref :
+  mesh_rotate90 ip m a b (k mod 4) ref = mesh_rotate90 ip m a b k ref.
+Proof.
+  unfold mesh_rotate90, rot_n. rewrite region_rotate90_mod4, odd_mod4.
+  destruct (region_rotate90 ip (reg m) a b k ref) as [r'|e]; simpl; [|reflexivity].
+  destruct (dim2index (reg m) a); simpl; [|reflexivity].
+  destruct (dim2index (reg m) b); simpl; [|reflexivity].
+  erewrite mapM_ext; [reflexivity|]. intros x; simpl. rewrite region_rotate90_mod4. reflexivity.
+Qed.
+
+Lemma field_rotate90_mod4 K ip (f : field K) a b k ref :
+  field_rotate90 K ip f a b (k mod 4) ref = field_rotate90 K ip f a b k ref.
+Proof.
+  unfold field_rotate90. rewrite mesh_rotate90_mod4.
+  destruct (dim2index (reg (fmesh f)) a); simpl; [|reflexivity].
+  destruct (dim2index (reg (fmesh f)) b); simpl; [|reflexivity].
+  rewrite !rot90_mod4, zturn_mod4. reflexivity.
+Qed.
+
+(* ---------- refusal ---------- *)
+Lemma field_refuse_unmapped K ip (f : field K) a b k ref :
+  (1 < nvdim f)%nat -> rlookup a (vmap f) = None \/ rlookup b (vmap f) = None ->
+  is_ok (field_rotate90 K ip f a b k ref) = false.
+Proof.
+  intros Hnv H. unfold field_rotate90.
+  destruct (dim2index (reg (fmesh f)) a); simpl; [|reflexivity].
+  destruct (dim2index (reg (fmesh f)) b); simpl; [|reflexivity].
+  apply Nat.ltb_lt in Hnv. rewrite Hnv. unfold comp_of.
+  destruct H as [H|H].
+  - rewrite H. reflexivity.
+  - rewrite H. destruct (rlookup a (vmap f)); simpl; [|reflexivity].
+    destruct (index_of s (vdims f)); reflexivity.
+Qed.
+
+(* rlookup finds nothing exactly when no entry of the mapping names the axis *)
+Lemma rlookup_none dim vm : rlookup dim vm = None <-> forall kv, In kv vm -> snd kv <> dim.
+Proof.
+  induction vm as [|[key val] t IH]; simpl.
+  - split; [intros _ kv []|reflexivity].
+  - destruct (rlookup dim t) eqn:E.
+    + split; [discriminate|]. intros H. exfalso.
+      assert (Hn : forall kv, In kv t -> snd kv <> dim) by (intros kv Hk; apply H; right; exact Hk).
+      apply IH in Hn. discriminate.
+    + destruct (String.eqb val dim) eqn:E2.
+      * split; [discriminate|]. intros H. apply String.eqb_eq in E2.
+        exfalso. apply (H (key, val)); [left; reflexivity|exact E2].
+      * split; [|reflexivity]. intros _ kv [Hk|Hk].
+        -- subst kv. simpl. apply String.eqb_neq. exact E2.
+        -- apply IH; [reflexivity|exact Hk].
+Qed.
